@@ -35,8 +35,13 @@ page is:
   more than one `extends` in a template, a block name defined twice in one template,
   an `endblock` name that differs from its block's name (a parse error of that
   template), a chain that revisits a template, a parent that does not exist;
-* a chain entered through include/render is resolved on its own (its own definitions
-  only) and its text inserted in place.
+* a chain (a template with `extends`) entered through include/render is resolved on its own (its own definitions
+  only) and its text inserted in place;
+* a template WITHOUT `extends` that is pulled in by `include` is rendered in the including context
+  ("the included template will share the same scope"): its block tags resolve against the chain in
+  force at the include tag, so a child can override a block that the base's partial defines; with
+  `render` (isolated context) the partial's blocks are its own.  (An earlier version of this model
+  gave included partials their own definitions; that was the model's invention, see DESIGN 0.5.)
 """
 
 from __future__ import annotations
@@ -225,7 +230,10 @@ class Resolver:
                 raise RefError("endblock", f"{name}:{b[1]}/{b[4]}")
         return tmpl
 
-    def render_template(self, name: str, scope: dict[str, Any]) -> str:
+    def render_template(self, name: str, scope: dict[str, Any], outer: "_Chain | None" = None) -> str:
+        """`outer`: the chain in force where an `include` tag stands.  An included template that does not
+        extend anything is rendered in the including context: its block tags resolve against that chain
+        (a child of the including template can override them), exactly like block tags of the base."""
         self.depth += 1
         if self.depth > 50:  # the generators never build recursive includes
             raise AssertionError("reference resolver: include recursion")
@@ -236,6 +244,8 @@ class Resolver:
                 names = [b[1] for b in blocks]
                 if len(set(names)) != len(names):
                     self.info.dup_standalone = True
+                if outer is not None and outer.stacks is not None:
+                    return self.render_nodes(tmpl["body"], scope, outer, [], name, 0)
                 chain = _Chain(None)
                 out = self.render_nodes(tmpl["body"], scope, chain, [], name, 0)
                 for b in blocks:
@@ -361,7 +371,7 @@ class Resolver:
                 out.append(self.render_nodes(n[2], scope, chain, sup, owner, block_depth))
             elif k == "inc":
                 self.info.partials.append("inc")
-                out.append(self.render_template(n[1], scope))
+                out.append(self.render_template(n[1], scope, outer=chain))
             elif k == "ren":
                 self.info.partials.append("ren")
                 inner = dict(self.data)
